@@ -96,9 +96,7 @@ theorem paintNote_active_length {R R32 : Rat → Rat} {c : Cfg} {n : Nat} {st st
     · split at h
       · cases h
       · split at h
-        · split at h
-          · cases h; simp [length_setCell, length_paint]
-          · cases h
+        · cases h; simp [length_setCell, length_paint]
         · cases h; simp [length_paint]
 
 theorem encNotes_active_length {R R32 : Rat → Rat} {eps : Rat} {c : Cfg} {total : Rat} {n : Nat}
